@@ -10,6 +10,7 @@ import (
 	"encoding/json"
 	"fmt"
 	"os"
+	"reflect"
 	"strconv"
 	"sync"
 	"time"
@@ -183,13 +184,48 @@ func verifSliceOff(s, base []byte) int {
 	}
 	return int(ps - pb)
 }
-func verifSameArray(a, b []byte) bool           { return verifSliceOff(a, b) >= 0 }
-func verifQuiesce()                             { panic("verifQuiesce: engine-only harness") }
-func verifYield()                               {}
-func verifGoroutines() int                      { panic("engine-only") }
-func verifBlocked() string                      { return "" }
-func verifGID() int                             { return 0 }
-func verifObserve(tag string, v any)            { fmt.Printf("OBSERVE %s=%v\n", tag, v) }
+func verifSameArray(a, b []byte) bool { return verifSliceOff(a, b) >= 0 }
+func verifQuiesce()                   { panic("verifQuiesce: engine-only harness") }
+func verifYield()                     {}
+func verifGoroutines() int            { panic("engine-only") }
+func verifBlocked() string            { return "" }
+func verifGID() int                   { return 0 }
+func verifObserve(tag string, v any) {
+	verifMu.Lock()
+	verifObservations = append(verifObservations, tag+"="+verifObserveFmt(v))
+	verifMu.Unlock()
+}
+
+var verifObservations []string
+
+func verifObserveFmt(v any) string {
+	switch x := v.(type) {
+	case nil:
+		return "nil"
+	case bool:
+		if x {
+			return "true"
+		}
+		return "false"
+	case string:
+		return x
+	case []byte:
+		return fmt.Sprintf("hex:%x", x)
+	}
+	rv := reflect.ValueOf(v)
+	switch rv.Kind() {
+	case reflect.Int, reflect.Int8, reflect.Int16, reflect.Int32, reflect.Int64:
+		return fmt.Sprint(rv.Int())
+	case reflect.Uint, reflect.Uint8, reflect.Uint16, reflect.Uint32, reflect.Uint64, reflect.Uintptr:
+		return fmt.Sprint(rv.Uint())
+	case reflect.Bool:
+		if rv.Bool() {
+			return "true"
+		}
+		return "false"
+	}
+	return fmt.Sprintf("%v", v)
+}
 func verifUnsupported(msg string)               { panic("unsupported: " + msg) }
 func verifFireTimer(t *time.Timer) bool         { panic("engine-only") }
 func verifTimerArmed(t *time.Timer) bool        { panic("engine-only") }
